@@ -359,7 +359,12 @@ func doBatch() {
 		e.KeepTrace = len(st.Samples) < *fSamples
 		e.Params = map[string]int{}
 		e.Memo = map[string]any{}
+		t0 := time.Now()
 		out := execute(run, ch, e)
+		if d := int(time.Since(t0).Milliseconds()); d > st.Probes["max_single_run_ms"] {
+			st.Probes["max_single_run_ms"] = d
+			st.Probes["max_single_run_index"] = int(idx)
+		}
 		st.Runs++
 		// the per-index determinism record covers the base execution and
 		// the first detEnum executions of its fault enumeration
